@@ -27,8 +27,9 @@ func c12Setup() {
 }
 
 type C12Case struct {
-	RS  RuleSet `json:"ruleset"`
-	Req Req     `json:"request"`
+	RS         RuleSet `json:"ruleset"`
+	Req        Req     `json:"request"`
+	MatchedVar bool    `json:"matched_var_scenario,omitempty"`
 }
 
 var c12Targets = [][]Target{
@@ -129,7 +130,13 @@ func genC12(t *rapid.T) *C12Case {
 		k := rapid.IntRange(2, 3).Draw(t, "mvrounds")
 		for i := 0; i < k; i++ {
 			id++
-			c.RS.Items = append(c.RS.Items, Item{Rule: &Rule{ID: id, Phase: phase, Disr: "pass", Op: "unconditionalMatch",
+			// the matcher's own transformations decide what MATCHED_VAR holds: trimming ones return a part of the
+			// same string, so successive rounds leave values that start at the same byte and differ in length
+			var mtr []string
+			if rapid.Bool().Draw(t, "mtrans") {
+				mtr = rapid.SampledFrom([][]string{{"trimRight"}, {"trim"}, {"trimLeft"}, {"trimRight", "lowercase"}, {"removeNulls"}}).Draw(t, "mtr")
+			}
+			c.RS.Items = append(c.RS.Items, Item{Rule: &Rule{ID: id, Phase: phase, Disr: "pass", Op: "unconditionalMatch", Trans: mtr,
 				Targets: append([]Target(nil), rapid.SampledFrom(singles).Draw(t, "single")...), Acts: []string{fmt.Sprintf("setvar:tx.c%d=+1", id)}}})
 			id++
 			c.RS.Items = append(c.RS.Items, Item{Rule: &Rule{ID: id, Phase: phase, Disr: "pass", Op: "rx", Arg: rapid.SampledFrom([]string{".", "^/", "a", "[A-Z]"}).Draw(t, "mvrx"),
@@ -137,8 +144,13 @@ func genC12(t *rapid.T) *C12Case {
 				Acts: []string{fmt.Sprintf("setvar:tx.c%d=+1", id)}}})
 		}
 		changing = true
+		c.MatchedVar = true
 	}
 	c.Req = Req{Method: "POST", Path: "/p", Headers: []KV{{"h", rapid.SampledFrom(c01Values).Draw(t, "hv")}, {"H2", "abc"}}}
+	if c.MatchedVar && rapid.Bool().Draw(t, "padded") {
+		c.Req.Headers[0].V = rapid.SampledFrom([]string{"abc  ", "  AbC ", "/x y  ", "a \t", "A1   "}).Draw(t, "padhv")
+		c.Req.Headers[1].V = rapid.SampledFrom([]string{"abc", "Zb  ", " q"}).Draw(t, "padh2")
+	}
 	na := rapid.IntRange(2, 8).Draw(t, "nargs")
 	for i := 0; i < na; i++ {
 		c.Req.Query = append(c.Req.Query, KV{rapid.SampledFrom([]string{"a", "a", "a", "b", "c", "A", "ab"}).Draw(t, "an"), rapid.SampledFrom(c01Values).Draw(t, "av")})
